@@ -54,9 +54,46 @@ PROPS = {
                         "bound text beyond int64 is outside 'integer bounds'",
                         "map[string]interface{} presentation: known finding C18-iface-map-values"],
     },
+    "C20": {
+        "run": "Run.Run_C20",
+        "rule": "cases = fixed instances of 16 hand-written named struct types (empty struct, first / all / middle / last fields unexported, deep nesting, "
+                "recursive type, pointer fields nil and non-nil, slices of structs / pointers / scalars nil vs empty vs populated, maps with int and "
+                "string keys nil / empty / one entry, arrays, every int/uint width, float32/float64, bools; a 40-pointer chain and a 12-deep slice nest) "
+                "+ random values of struct types synthesised with reflect.StructOf (0..4 exported fields, depth 1..4, nested named types) "
+                "+ 31 quirk shapes outside the domain (embedded, interface fields, pointers to scalars, **T, time.Time, func/chan, []byte, bool keys, "
+                "escapes, top-level non-structs) that tie the model only. Stream CDump: maps hold <= 1 entry, the dump is compared byte for byte in Coq "
+                "with the model and with jprint(doc_of v), and must pass the RFC 8259 parser; stream CPerm: multi-entry maps, compared as parsed documents "
+                "with object members as a set. In both streams the harness also decodes the dump and GetDumpStructStrForJson(v) with encoding/json and "
+                "compares the documents up to the documented deviations (carried into the case as json_agrees; a mismatch is also a driver violation). "
+                "Every case the generator claims in-domain must satisfy dumpable (no vacuous pass). distinct cell = (origin, set of features).",
+        "trusted": [ORACLES + "strconv.FormatFloat(x,'f',-1,32|64) (float_repr, printed by the harness into each VFloat)",
+                    "correspondence: Go driver c20.go/c20types.go (reflect walk printing the Gallina val term, encoding/json document comparison), "
+                    "Run/Run_C20.v comparison functions, bin/check"],
+        "assumptions": ["encoding/json's document of a value (field names as keys, no tags) is doc_of v up to the documented deviations "
+                        "(tested on every in-domain case by decoding both texts with encoding/json)",
+                        "reflect shows the dumper the first-order image in Model/DumpVal.v (kind, nil-ness, field name / PkgPath / Anonymous / type==time.Time)",
+                        "map entries are printed in iteration order on both sides; the order itself is not observable and is compared as a set",
+                        "strconv.AppendInt/AppendUint agree with itoa/utoa of Base/GoNum.v (tested by every case with an integer)"],
+    },
 }
 
 LEVELS = {
+    "C20": {
+        "text": "Theorems in Coq: (1) an RFC 8259 recursive-descent parser (white space, escapes, number grammar) parses the compact printing of every "
+                "document whose strings need no escapes and whose numbers are valid literals back to that document (unbounded; decimal renderings of all "
+                "integers are proved valid literals); (2) a line-by-line model of HandleDumpStruct/loopHandleKV (first-field special case, needAddComma, "
+                "exported-only fields, per-kind rendering, slice and map separators, key quoting) prints, for every value of the property's domain and "
+                "every nesting depth, exactly the document of the standard encoder with the documented deviations (doc_of), by induction on fuel with one "
+                "lemma per loop; hence the dump is well-formed JSON that decodes to that document. The model is tied to the code by evaluating it inside "
+                "Coq on generated values next to the observed bytes, and doc_of is tied to encoding/json by decoding both texts.",
+        "design_ref": "DESIGN.md section 5, C20",
+        "note": "Trusted: Coq kernel + vm_compute; float renderings are an oracle (harness-supplied, required to be JSON number literals); the correspondence "
+                "harness; doc_of as a description of encoding/json (tested, not proved). Domain made precise (dumpable): top-level struct, pointer to struct "
+                "or nil pointer (one Indirect only: **T dumps the empty string); no embedded fields, interface-typed fields, pointers to non-structs, time.Time, func/chan; "
+                "escape-free strings and field names; finite floats; map keys string/int/uint. Excluded as known findings: []byte (C20_byte_slice_refuted) "
+                "and exported fields with a non-ASCII capital initial (C20_nonascii_field_refuted). The time.Time branch is modelled with a field flag.",
+        "technique": "Coq proof (parser/printer round trip; fuel induction over a mutually recursive model) + model-vs-implementation and spec-vs-encoding/json correspondence evaluated in Coq",
+    },
     "C01": {
         "text": "Theorems in Coq: for every rule text whose bounds parse, every object/field name and every non-zero value of a sized kind, each of the 8 "
                 "rule functions writes a clause exactly when the measure (rune count / exact integer or dyadic value / slice length) lies outside the "
